@@ -24,7 +24,7 @@ func init() {
 	register(&Prop{
 		ID:       "C13",
 		Category: "model_checking",
-		Rule: "first life: a stream in {70 KB text, 300 B, a stream ending in a corrupt-input error, a truncated stream, streams cut inside a dynamic header / inside a stored block's length field / inside its payload, a 70 KB stored stream, every stream of the C03 fault catalogue read to its error} x read history in {nothing read, 1 byte, 10 bytes, all but the last byte, to the end/error, exactly 65535 / 65536 bytes (output window full)} x Read size {1 MiB, 7}; then Reset(second source [, dictionary]); " +
+		Rule: "first life: a stream in {70 KB text, 300 B, a stream ending in a corrupt-input error, a truncated stream, streams cut inside a dynamic header / inside a stored block's length field / inside its payload, a 70 KB stored stream, every stream of the C03 fault catalogue read to its error, streams started through Reset(src, dict) with a 20- or 40000-byte dictionary (70 KB: the window slides over the place of the dictionary)} x read history in {nothing read, 1 byte, 10 bytes, all but the last byte, to the end/error, exactly 65535 / 65536 bytes (output window full)} x Read size {1 MiB, 7}; then Reset(second source [, dictionary]); " +
 			"second life: every stream of the short corpus, malformed streams whose back-references reach 1, 2, 100 and 32768 bytes before their own start, containers of the same kind, raw streams with a preset dictionary of 20 and of 40000 bytes (only the last 32 KiB count; copies from its end, from 32000 back and from the part out of reach; malformed back-references into and beyond the dictionary) through flate's Reset(src, dict) against NewReaderDict, and for zlib every combination {first stream with/without dictionary} x {second with/without}; flate, gzip (also member stepping), zlib; second source plain, a 64-byte bufio, one byte per call, or one byte per call through a 16-byte bufio; " +
 			"first source plain, or a 64-byte or default-size *bufio.Reader owned by the caller; oracle: bytes and kind of error of the second life identical to a fresh Reader on the same input, and the first source untouched after Reset (no further Read call; the caller still reads from it exactly what was left); non-trivial = the first life decoded at least one byte",
 		Assumptions: []string{"a freshly constructed Reader is the reference model"},
@@ -209,6 +209,13 @@ func c13Harness(cfg *Cfg) func(x *mc.Exec) {
 		{"backref-32768-into-dict40000", backrefStreams()[3].stream, d40},
 		{"backref-beyond-dict20", backrefStreams()[2].stream, dict20},
 	}
+	// first lives that were themselves started through Reset(src, dict) (the Reader of a connection that uses one
+	// shared dictionary for every message): long enough to slide the window over the place where the dictionary was
+	// put, and short; the second life may get the very same dictionary slice again
+	firstFlate = append(firstFlate,
+		c13life{"70K-text-after-Reset-with-dict40000", stdDeflateDict(text70, d40), d40},
+		c13life{"70K-text-after-Reset-with-dict20", stdDeflateDict(text70, dict20), dict20},
+		c13life{"dict40000-stream-after-Reset-with-dict40000", stdDeflateDict(pl, d40), d40})
 	histories := []string{"nothing", "1 byte", "10 bytes", "all-but-last", "to-end", "65535 bytes", "65536 bytes (output window full)"}
 	pols := []env.ReadPolicy{env.PolicyAll, env.Policy7}
 	firstRead := func(r io.Reader, hist int, total int) {
@@ -286,6 +293,9 @@ func c13Harness(cfg *Cfg) func(x *mc.Exec) {
 				if pi := Guard(func() {
 					first = newC13first(f1.stream, fmode)
 					r = fflate.NewReader(first.reader())
+					if f1.dict != nil {
+						r.(fflate.Resetter).Reset(first.reader(), f1.dict)
+					}
 					firstRead(r, hist, 70000)
 					first.snapshot()
 					r.(fflate.Resetter).Reset(mkSrc(d.stream, viaBufio), d.dict)
@@ -308,6 +318,9 @@ func c13Harness(cfg *Cfg) func(x *mc.Exec) {
 			if pi := Guard(func() {
 				first = newC13first(f1.stream, fmode)
 				r = fflate.NewReader(first.reader())
+				if f1.dict != nil {
+					r.(fflate.Resetter).Reset(first.reader(), f1.dict)
+				}
 				firstRead(r, hist, 70000)
 				first.snapshot()
 				r.(fflate.Resetter).Reset(mkSrc(s2.stream, viaBufio), nil)
